@@ -2,7 +2,9 @@ package gram
 
 import (
 	"fmt"
+	"regexp"
 	"sort"
+	"strconv"
 	"strings"
 )
 
@@ -292,6 +294,55 @@ func L9(n int) []*Grammar {
 	return gs
 }
 
+// L10: the realistic lexers of L6 and the boundary lexers of L5 with every character literal spelled in one style -
+// octal, \x, \u, \U (both hex cases) or raw - wherever the style can express the code point.
+func L10() []*Grammar {
+	var gs []*Grammar
+	re := regexp.MustCompile(`'(?:\\u[0-9a-fA-F]{4}|\\U[0-9a-fA-F]{8}|[^'\\])'`)
+	base := append(append([]*Grammar{}, L6()...), L5()...)
+	for _, style := range []string{"octal", "x", "X", "u", "U", "raw"} {
+		for _, g := range base {
+			if len(g.Alts) > 0 && style != "octal" {
+				continue
+			}
+			canon := g.Text()
+			changed := false
+			text := re.ReplaceAllStringFunc(canon, func(lit string) string {
+				cp, _, _, err := strconv.UnquoteChar(lit[1:], '\'')
+				if err != nil {
+					return lit
+				}
+				out := lit
+				switch {
+				case style == "octal" && cp <= 0xff:
+					out = fmt.Sprintf(`'\%03o'`, cp)
+				case style == "x" && cp <= 0xff:
+					out = fmt.Sprintf(`'\x%02x'`, cp)
+				case style == "X" && cp <= 0xff:
+					out = fmt.Sprintf(`'\x%02X'`, cp)
+				case style == "u" && cp <= 0xffff:
+					out = fmt.Sprintf(`'\u%04X'`, cp)
+				case style == "U":
+					out = fmt.Sprintf(`'\U%08x'`, cp)
+				case style == "raw" && cp > 0x20 && cp != '\'' && cp != '\\' && cp != 0x7f && !(cp >= 0xd800 && cp <= 0xdfff) && cp != 0xfeff:
+					out = "'" + string(cp) + "'"
+				}
+				if out != lit {
+					changed = true
+				}
+				return out
+			})
+			if !changed {
+				continue
+			}
+			c := *g
+			c.Spelled = text
+			gs = append(gs, &c)
+		}
+	}
+	return gs
+}
+
 // SortBySize orders grammars by text length, then text.
 func SortBySize(gs []*Grammar) {
 	sort.SliceStable(gs, func(i, j int) bool {
@@ -385,6 +436,18 @@ func L6() []*Grammar {
 		Lex:  []LexDef{{"id", "tok", Seq(Rng('a', 'c'), Rep(Rng('a', 'c')))}},
 		Alts: []Alt{{Head: "S", Body: []Sym{{Name: "INVALID", Str: true}, {Name: "id"}}}},
 	})
+	// character literals that agree in their low byte (U+003A / U+043A, TAB / U+2009, NUL / U+3000), alone and inside a
+	// range, in both declaration orders
+	for _, p := range [][2]rune{{0x3a, 0x43a}, {0x09, 0x2009}, {0x00, 0x3000}, {0x41, 0x10041}} {
+		for _, swap := range []bool{false, true} {
+			a, b := p[0], p[1]
+			if swap {
+				a, b = b, a
+			}
+			gs = append(gs, &Grammar{Lex: []LexDef{{"ta", "tok", Lit(a)}, {"tb", "tok", Lit(b)}, {"w", "tok", Seq(Rng(p[1]-5, p[1]+5), Lit('x'))}}},
+				&Grammar{Lex: []LexDef{{"w", "tok", Seq(Rng(p[1]-5, p[1]+5), Rep(Rng(p[1]-5, p[1]+5)))}, {"ta", "tok", Seq(Lit(a), Lit(b))}, {"tb", "tok", Seq(Lit(b), Lit(a), Lit('!'))}}})
+		}
+	}
 	// keywords as string literals vs identifiers
 	gs = append(gs, &Grammar{
 		Lex:  []LexDef{{"id", "tok", Seq(Rng('a', 'z'), Rep(Rng('a', 'z')))}, {"!ws", "ign", Lit(' ')}},
